@@ -159,6 +159,8 @@ pub struct Counters {
     pub dangling_open_upvalue: u64,
     pub last_op: u8,
     pub timeout_depth: u64,
+    pub peak_stack: usize,
+    pub peak_calls: usize,
 }
 
 pub struct State {
@@ -788,6 +790,13 @@ impl Controller for Installed {
         let mut s = self.0.borrow_mut();
         s.c.dispatches += 1;
         s.c.last_op = opcode;
+        let (h, d) = (rt.verif_stack_height(), rt.verif_call_depth());
+        if h > s.c.peak_stack {
+            s.c.peak_stack = h;
+        }
+        if d > s.c.peak_calls {
+            s.c.peak_calls = d;
+        }
         if let Some(t) = s.site_stack.last_mut() {
             *t = opcode;
         }
@@ -842,6 +851,10 @@ impl Controller for Installed {
 
     fn after_instr(&mut self, rt: &RuntimeData) {
         let mut s = self.0.borrow_mut();
+        let h = rt.verif_stack_height();
+        if h > s.c.peak_stack {
+            s.c.peak_stack = h;
+        }
         let depth = s.site_stack.len();
         while s.instr_args.last().map(|(d, _)| *d >= depth).unwrap_or(false) {
             s.instr_args.pop();
